@@ -67,6 +67,7 @@ class Builder:
         self.labels = []
         self.consts = []         # ConstDef items in definition order
         self.cvals = {}          # name -> value (ints) / ('reg', n)
+        self.addr_consts = []    # names of integer constants that hold an absolute address near the code
         self.items = []
         self.tags = set()        # generator classes present in this program
         self.expected_ok = True  # program is legal with wide margins
@@ -147,7 +148,8 @@ class Builder:
         profile allows - directly (which fits as long as the program stays small)."""
         self.tags.add('labelval')
         L = self.label()
-        kind = self.weighted([('lo_l', 3), ('lo_pos', 3), ('lo_off', 2),
+        kind = self.weighted([('lo_l', 3), ('lo_pos', 3), ('lo_off', 2), ('lo_offc', 2 if self.addr_consts else 0),
+                              ('offc', 2 if (self.p['labelval_direct'] and self.addr_consts) else 0),
                               ('l', 2 if self.p['labelval_direct'] else 0),
                               ('off', 2 if self.p['labelval_direct'] else 0),
                               ('pos', 2 if self.p['labelval_direct'] else 0)])
@@ -157,6 +159,13 @@ class Builder:
             return ir.Lo(ir.Pos(L, self.pos_base()))
         if kind == 'lo_off':
             return ir.Lo(ir.Off(L))
+        if kind == 'lo_offc':
+            self.tags.add('offset_to_constant')
+            return ir.Lo(ir.OffC(self.pick(self.addr_consts)))
+        if kind == 'offc':
+            self.tags.add('offset_to_constant')
+            self.expected_ok = False
+            return ir.OffC(self.pick(self.addr_consts))
         if kind == 'l':
             self.expected_ok = False
             return ir.LRef(L)
@@ -184,7 +193,12 @@ class Builder:
         """Label-dependent value of arbitrary magnitude (li operands, dw/pack values)."""
         self.tags.add('labelval')
         L = self.label()
-        kind = self.i(0, 7)
+        kind = self.i(0, 8)
+        if kind == 8:
+            if self.addr_consts:
+                self.tags.add('offset_to_constant')
+                return ir.OffC(self.pick(self.addr_consts))
+            kind = 2
         if kind == 6:
             # a value that GROWS when the label moves down (counts down from the label)
             return ir.Bin('-', ir.Lit(self.pick([2040, 2047, 2050, 2060, 2070, 2100, 4096, 40])), ir.LRef(L))
@@ -243,7 +257,15 @@ class Builder:
         return ir.Paren(a), av
 
     def add_const(self, name):
-        kind = self.weighted([('small', 4), ('shamt', 2), ('word', 3), ('expr', 4), ('reg', 3), ('chr', 1)])
+        kind = self.weighted([('small', 4), ('shamt', 2), ('word', 3), ('expr', 4), ('reg', 3), ('chr', 1), ('addr', 2)])
+        if kind == 'addr':
+            # an absolute address near the code (even): target of jumps / branches and of %offset
+            v = ir.Lit(self.edgy(0, 4094, 2, extra=(2046, 2048, 2050, 254, 256, 258, 8, 12, 16, 40, 100)))
+            self.addr_consts.append(name)
+            self.cvals[name] = v.value
+            c = ir.ConstDef(name, value=v)
+            self.consts.append(c)
+            return c
         if kind == 'reg':
             n = self.reg_n()
             c = ir.ConstDef(name, reg=n)
@@ -533,6 +555,17 @@ class Builder:
         self.tags.add('explicit_c')
         return ir.Insn(self.pick(['c.j', 'c.jal']), {'imm': ir.Lit(self.edgy(-2048, 2046, 2))})
 
+    def const_transfer(self):
+        """A branch / jump (real instruction) whose target is a constant absolute address, written as the bare constant name."""
+        self.tags.add('offset_to_constant')
+        K = self.pick(self.addr_consts)
+        if self.chance(0.5):
+            comp = self.chance(self.p['p_compressible'])
+            mn = self.pick(['beq', 'bne']) if comp else self.pick(sorted(rvref.BRANCHES))
+            return ir.Insn(mn, {'rs1': self.reg(pool=[7, 8, 15, 16]) if comp else self.reg(), 'rs2': self.reg(0) if comp else self.reg(),
+                                'imm': ir.OffC(K, bare=True)})
+        return ir.Insn('jal', {'rd': self.reg(pool=[0, 1, 5, 31]), 'imm': ir.OffC(K, bare=True)})
+
     def branch_insn(self, L, comp=None):
         if comp is None:
             comp = self.chance(self.p['p_compressible'])
@@ -688,6 +721,8 @@ class Builder:
             return [a]
         if self.chance(0.12):
             return [self.numeric_transfer()]
+        if self.addr_consts and self.chance(0.12):
+            return [self.const_transfer()]
         return [self.transfer(self.label())]
 
     def build(self):
@@ -724,6 +759,7 @@ class Builder:
             body.insert(pos + off, [c])
         self.items = [it for unit in body for it in unit]
         self.tune_countdowns()
+        self.tune_const_offsets()
         self.repair_ranges()
         return Program(self.items, sorted(self.tags), self.expected_ok)
 
@@ -742,6 +778,49 @@ class Builder:
                 it.ops[1] = ir.Bin('-', ir.Lit(2047 + labpos.get(L, 0) - self.pick([0, 0, 2, 4, 6, 8, 12])), ir.LRef(L))
                 self.tags.add('li_countdown_at_range_edge')
 
+    def tune_const_offsets(self):
+        """%offset(K), K an address constant that nothing else uses: choose K so that the offset sits on an edge of a compression
+        or size decision (0, +-32, 256, 2048 ...) while the item is still at its pessimistic place - it grows as soon as earlier
+        items shrink, so a decision taken on the early value goes wrong."""
+        def crefs(v, out):
+            if isinstance(v, ir.OffC):
+                return
+            if isinstance(v, ir.CRef):
+                out.add(v.name)
+            for attr in ('a', 'b', 'v', 'base'):
+                x = getattr(v, attr, None)
+                if isinstance(x, ir.V):
+                    crefs(x, out)
+
+        def offcs(v, out):
+            if isinstance(v, ir.OffC):
+                out.add(v.name)
+            for attr in ('a', 'b', 'v', 'base'):
+                x = getattr(v, attr, None)
+                if isinstance(x, ir.V):
+                    offcs(x, out)
+        plain, first, o = set(), {}, 0
+        for it in self.items:
+            vals = list(it.ops.values()) if it.kind == 'insn' else list(it.ops) if it.kind == 'pseudo' else [it.value] if it.kind in ('short', 'pack') else \
+                [it.value] if (it.kind == 'const' and it.value is not None) else []
+            for v in vals:
+                if isinstance(v, ir.V):
+                    crefs(v, plain)
+                    got = set()
+                    offcs(v, got)
+                    for n in got:
+                        first.setdefault(n, o)
+                if isinstance(v, ir.Reg) and v.alias:
+                    plain.add(v.alias)
+            o += pess_size(it)
+        for c in self.consts:
+            if c.name in first and c.name not in plain and c.name in self.addr_consts and self.chance(0.6):
+                newv = max(0, first[c.name] + self.pick([0, 0, 0, 2, 4, 30, 32, 62, 64, 124, 128, 252, 254, 256, 2044, 2046, 2048, -2, -32, -34, -256, -258, -2048, -2050]))
+                newv -= newv % 2
+                c.value = ir.Lit(newv)
+                self.cvals[c.name] = newv
+                self.tags.add('const_offset_at_decision_edge')
+
     def repair_ranges(self):
         """Keep non-crafted transfers legal by construction: retarget a transfer whose pessimistic distance
         exceeds a safe range to the nearest label, or turn it into a nop if no label is in range."""
@@ -754,6 +833,11 @@ class Builder:
         in_group = set()
         for i, it in enumerate(items):
             tgt, limit = None, None
+            if it.kind == 'insn' and (it.mn in rvref.BRANCHES or it.mn == 'jal') and isinstance(it.ops['imm'], ir.OffC):
+                # target is a constant address: out of reach -> nop
+                if abs(self.cvals[it.ops['imm'].name] - offs[i]) > (3900 if it.mn != 'jal' else (1 << 20) - 4096):
+                    items[i] = ir.Pseudo('nop', [])
+                continue
             if it.kind == 'insn' and it.mn in rvref.BRANCHES and isinstance(it.ops['imm'], ir.Off):
                 tgt, limit = it.ops['imm'].name, 3900
             elif it.kind == 'insn' and it.mn == 'jal' and isinstance(it.ops['imm'], ir.Off):
